@@ -19,7 +19,7 @@ import gen
 
 ASSUMPTIONS = [
     "Theorems are about the Lean model of class Interval (LibfiveModel/Interval.lean, mirroring the fixed interval.hpp) over extended values nan|-inf|fin x|+inf of an arbitrary linearly ordered field, in exact arithmetic.",
-    "Boost.Interval's primitives are parameters with their contracts as hypotheses (for non-NaN a in A, b in B with a non-NaN exact result, the result lies in the returned bounds; division/reciprocal/negative powers only for non-zero divisors; log only for a positive upper bound, pow(.,0) not on [0,0], nth_root only for finite bounds): outward rounding and transcendental enclosures are Boost's, assumed. The contracts are idealised where Boost itself returns a NaN bound for non-NaN values (inf-inf endpoint sums): that corner is the listed finding flagged-nan-bounds-hull-rule.",
+    "Boost.Interval's primitives are parameters with their contracts as hypotheses (for non-NaN a in A, b in B with a non-NaN exact result, the result lies in the returned bounds; division/reciprocal/negative powers only for non-zero divisors; log only for a positive upper bound, pow(.,0) not on [0,0], nth_root only for finite bounds): outward rounding and transcendental enclosures are Boost's, assumed. Where Boost itself returns a NaN bound for non-NaN values (inf-inf endpoint sums, empty intervals) the repaired constructor (/repo 0be5df1) replaces the bounds by [-inf,+inf], flagged: flagged_bounds_enclose / nan_bounds_kept_unsound.",
     "Point semantics follow eval_array.cpp in exact arithmetic; Eigen's vector kernels (few-ulp error, non-IEEE results at overflow) are not modelled: deviations are found by the oracle stream and recorded as known findings.",
     "pow / nth_root exponents are integer constants (the only exponents libfive's API admits); these two opcodes keep a side condition (SafeArgs): pow exponent 0 not on the base [0,0], nth_root only for finite operand bounds. Every other opcode's enclosure lemma and tape_enclosure are unconditional.",
     "The inductive invariant is the strong enclosure (a flagged interval still bounds its non-NaN values); the property statement (unflagged => enclosed) is its corollary.",
